@@ -126,5 +126,10 @@ def run(chk, prog):
     chk.floor("R4-identity", len(r), 2)
     wmnew = [y for y in A.walk(mainf["body"]) if y["k"] == "CXXNewExpr" and "Identity" in (y.get("alloc_type") or "")]
     chk.check(len(wmnew) >= 2, "R4", mainf.where, "main builds Identity maps for the absent wake and the absent damping (%d)" % len(wmnew), "main:identities")
+    # ---- R5: the rotation that turns energy spread into bunch length is circular in the normalised coordinates ---------------
+    # (the limit "bunch length -> 1" is stated in units of the natural bunch length: kick and drift slopes must match, and the position
+    # unit must be the natural length for the effective f_s/alpha -- decided under C03 R1, R2, R6; re-evaluated here)
+    from .common import reeval
+    reeval(chk, prog, "C03", lambda i: i["rule"] in ("R1", "R2", "R6"), "R5", "R5-rotation-matching", 10)
     chk.notes.append("C04: decides that the Fokker-Planck stencils are consistent discretisations of e1*(f + p f' + f'') with matching damping and "
                      "diffusion coefficients for every FPType, and the wiring of e1. Does NOT decide convergence, monotonicity or the stable range.")
